@@ -809,6 +809,93 @@ func subRealDial() mon.Sub {
 	}
 }
 
+// subDialFaults: the connection FAILS in the middle of the handshake - while the request is written, or after 0..n
+// bytes of an otherwise valid 101 - with one of eight kinds of error (an expired deadline somebody else set on the
+// connection and other net.Errors among them), through Upgrade and through Dial under contexts that are alive and
+// stay alive. "The dialer reports success exactly when ..." a complete valid 101 was read: never here; and Dial closes
+// the connection it obtained.
+func subDialFaults() mon.Sub {
+	return mon.Sub{
+		Name: "dial-faults", Required: true,
+		N: func(t string) int {
+			if t == "thorough" {
+				return 8000
+			}
+			return 400
+		},
+		Do: func(c *mon.C) {
+			c.Count(1)
+			fk := xport.FaultKinds[c.I%len(xport.FaultKinds)]
+			mode := c.I / len(xport.FaultKinds) % 4 // 0 Upgrade, 1 Dial(Background), 2 Dial(WithCancel, live), 3 Dial(WithTimeout 1h, live)
+			cfg := DCfg{Protocols: protoLists[c.I%len(protoLists)], Header: hdrKinds[c.I%5], RBuf: bufSizes[c.I%len(bufSizes)], WBuf: bufSizes[c.I/3%len(bufSizes)]}
+			ustr := urls[c.I%6]
+			u, _ := url.ParseRequestURI(ustr)
+			d := buildDialer(cfg)
+			writeFault := c.I/7%5 == 0
+			conn := &fakeconn.Script{EndErr: fk.Err, WriteErr: fk.Err, Plan: xport.Plans(c.Rng.Int63(), nil)[c.Rng.Intn(8)]}
+			if writeFault {
+				conn.WriteErrAt = 1 + c.Rng.Intn(2)
+			}
+			cut, full := 0, 0
+			conn.Respond = func(written []byte) []byte {
+				hr, err := http.ReadRequest(bufio.NewReader(bytes.NewReader(written)))
+				if err != nil {
+					return nil
+				}
+				resp := "HTTP/1.1 101 Switching Protocols\r\nUpgrade: websocket\r\nConnection: Upgrade\r\nSec-WebSocket-Accept: " + ref.Accept(hr.Header.Get("Sec-Websocket-Key")) + "\r\n\r\n"
+				full = len(resp)
+				// cut places: nothing, inside the status line, after it, inside / after the headers, one byte short of the end
+				cut = []int{0, 5, strings.Index(resp, "\r\n") + 2, full / 2, full - 4, full - 2, full - 1}[c.Rng.Intn(7)]
+				return []byte(resp[:cut])
+			}
+			ctx, cancel := context.Background(), func() {}
+			switch mode {
+			case 2:
+				ctx, cancel = context.WithCancel(context.Background())
+			case 3:
+				ctx, cancel = context.WithTimeout(context.Background(), time.Hour)
+			}
+			defer cancel()
+			var (
+				nc  net.Conn
+				br  *bufio.Reader
+				err error
+			)
+			if mode == 0 {
+				br, _, err = d.Upgrade(conn, u)
+			} else {
+				d.NetDial = func(context.Context, string, string) (net.Conn, error) { return conn, nil }
+				d.TLSClient = func(cn net.Conn, _ string) net.Conn { return cn }
+				nc, br, _, err = d.Dial(ctx, ustr)
+			}
+			det := map[string]interface{}{"config": cfg.String(), "url": ustr, "error_kind": fk.Name, "error": fk.Err.Error(), "mode": []string{"Upgrade", "Dial(Background)", "Dial(WithCancel, alive)", "Dial(WithTimeout 1h, alive)"}[mode],
+				"write_fails": writeFault, "response_bytes_delivered_before_the_failure": cut, "response_len": full, "err": fmt.Sprint(err)}
+			if err == nil {
+				c.Fail("dial-faults/success/"+fk.Name, fmt.Sprintf("the dialer reports success although the connection failed (%s) before a complete 101 had been read", fk.Name), det)
+				return
+			}
+			if br != nil {
+				c.Fail("dial-faults/buffer-with-error", "a buffer was returned together with an error", det)
+				return
+			}
+			if mode != 0 {
+				closed := false
+				for _, e := range conn.Events {
+					if e == "Close" {
+						closed = true
+					}
+				}
+				if !closed {
+					c.Fail("dial-faults/not-closed", "Dial returned an error without closing the connection it obtained", det)
+					return
+				}
+				_ = nc
+			}
+			c.Classf("dial-faults|%s|mode%d|write=%v", fk.Name, mode, writeFault)
+		},
+	}
+}
+
 func subRandom() mon.Sub {
 	return mon.Sub{
 		Name: "random", Required: true,
@@ -839,6 +926,6 @@ func main() {
 		Rule: "a scripted in-memory peer records the request the dialer writes (parsed by net/http: GET, request-URI, HTTP/1.1, Host or override, exactly the required headers, a fresh base64 key of 16 bytes, configured subprotocols/extensions/extra headers; NetDial address and TLS hostname for Dial) and answers with a grammar-generated response built from what it actually received (10 factors: version token, status token incl. non-digit and overflowing forms, reason, Upgrade, Connection, Sec-WebSocket-Accept, subprotocol, extensions, extra headers, line ends), followed by post-handshake bytes of length {0,1,2,100,buf-1,buf,buf+1,70000} delivered in the same read as the head, byte by byte, or under other chunk plans. " +
 			"Cases: every single-factor variant x 4 configurations x 3 URLs, every pair of non-canonical variants, valid responses x all trailing lengths x deliveries x buffer sizes x protocol lists through Upgrade and Dial, seeded random derivations, and ONE Dialer value reused for 2-4 handshakes with differently answering servers (every request carries the configured offer, the configuration is unchanged). Oracle: three-valued verdict on the derivation; reported protocol/extensions == sent; buffer-then-connection yields exactly the trailing bytes. distinct = (outcome, verdict, non-canonical variants, trailing class, delivery, config sizes).",
 		Assumptions: []string{"net/http.ReadRequest is the independent request parser", "OPEN: LF-only line ends, duplicated valid headers, Connection token list in a response, two subprotocol headers / empty / list values, version tokens HTTP/1.01 and http/1.1", "TLS hostname for IPv6 literals is not constrained"},
-		Subs:        []mon.Sub{subSingle(), subPairs(), subTrailing(), subRandom(), subReuse(), subRealDial()},
+		Subs:        []mon.Sub{subSingle(), subPairs(), subTrailing(), subRandom(), subReuse(), subRealDial(), subDialFaults()},
 	})
 }
